@@ -680,7 +680,10 @@ func (sh *shadow) votes(r *hx.Run, name string, op []string, pre *snapshot, cr c
 	thr := ceil23(len(cons))
 	want := cnt >= thr && !sh.released[id]
 	r.Hist(fmt.Sprintf("%s.fired=%v", name, firedNow))
-	if firedNow && !want && !sh.released[id] {
+	if firedNow && !want && !sh.released[id] && len(sh.voters[id]) >= thr {
+		// enough recorded votes, but not of validators that are consensus members now
+		r.Viol("C25:released-below-quorum:stale-voters", fmt.Sprintf("%s released with %d distinct CURRENT consensus validators of %d (needs %d); %d recorded votes are of pool members that are no longer consensus members (quitting / blacklisted / candidate)", name, cnt, len(cons), thr, len(sh.voters[id])-cnt))
+	} else if firedNow && !want && !sh.released[id] {
 		r.Viol("C25:released-below-quorum:"+name, fmt.Sprintf("%s released with %d distinct current validators of %d (needs %d)", name, cnt, len(cons), thr))
 	}
 	if !firedNow && want {
